@@ -12,6 +12,7 @@ CONSTANTS
   Bug = {}
   GenMode = "script"
   GenDepth = 0
-  ScriptIds = {2, 4, 5}
+  HandoffEnds = {"a", "b"}
+  ScriptIds = {2, 4, 5, 7}
 INVARIANT EmitTrace
 CHECK_DEADLOCK FALSE
